@@ -189,7 +189,7 @@ static int cmd_batch(int argc, char **argv) {
     if (trace_lines) fprintf(rep, "T %ld %016llx %s\n", idx, (unsigned long long)v.trace_hash, v.violation ? v.cls.c_str() : (v.skipped ? "skip" : "ok"));
     if (v.skipped) { g_stats.add("skipped." + v.skip_reason, 1); g_stats.add("skipped", 1); continue; }
     if (v.nontrivial) g_stats.distinct_cases.insert(v.case_hash);
-    if (g_stats.samples.size() < 3 && (v.nontrivial || done > 20)) g_stats.samples.push_back(scn_summary(s));
+    if (g_stats.samples.size() < 3 && v.nontrivial && (done == 1 || done % 97 == 0)) g_stats.samples.push_back(scn_summary(s));
     if (v.violation) {
       if (!v.sig.empty()) {
         // carries the signature of a possible known finding: the driver decides; keep exploring
